@@ -6,7 +6,9 @@ set -e
 CFG=${1:-rel}
 REPO=${VERIF_REPO:-/repo}
 ROOT=$(cd "$(dirname "$0")/.." && pwd)
-B=$ROOT/.work/build-$CFG
+TAG=""
+if [ "$REPO" != "/repo" ]; then TAG="-$(echo -n "$REPO" | md5sum | cut -c1-8)"; fi
+B=$ROOT/.work/build-$CFG$TAG
 mkdir -p "$B"
 COMMON="-DBUILD_TESTS=no -DBUILD_BENCHMARKS=no -DBUILD_SHARED_LIBS=no -DCMAKE_BUILD_TYPE=Release -DWITH_SYMENGINE_RCP=yes"
 case $CFG in
